@@ -182,7 +182,15 @@ theorem mem_beChars_digitsLE {up : Bool} {r n : Nat} (hr : 2 ≤ r) (hr' : r ≤
   have := digitsLE_lt hr n d hd
   exact ⟨d, this, by omega, rfl⟩
 
-theorem natChars_digits (n : Nat) : ∀ c ∈ natChars n, c ≠ '-' ∧ c ≠ '.' ∧ digitVal c < 10 := by
+theorem digitChar_isDigit : ∀ d, d < 10 → isDigit (digitChar false d) = true := by decide
+
+theorem isDigit_ne {c : Char} (h : isDigit c = true) :
+    c ≠ '-' ∧ c ≠ '.' ∧ c ≠ ',' ∧ c ≠ '_' := by
+  refine ⟨?_, ?_, ?_, ?_⟩ <;> (intro e; subst e; revert h; decide)
+
+/-- the characters of `number_chars` of a natural number are decimal digits. -/
+theorem natChars_digits (n : Nat) :
+    ∀ c ∈ natChars n, c ≠ '-' ∧ c ≠ '.' ∧ digitVal c < 10 ∧ isDigit c = true := by
   intro c hc
   by_cases hn : n = 0
   · subst hn
@@ -190,7 +198,8 @@ theorem natChars_digits (n : Nat) : ∀ c ∈ natChars n, c ≠ '-' ∧ c ≠ '.
     subst this; decide
   · rw [natChars_pos hn] at hc
     obtain ⟨d, hd, hd36, rfl⟩ := mem_beChars_digitsLE (by omega) (by omega) hc
-    exact ⟨digitChar_ne_minus _ d hd36, digitChar_ne_dot _ d hd36, by rw [digitVal_digitChar _ d hd36]; exact hd⟩
+    exact ⟨digitChar_ne_minus _ d hd36, digitChar_ne_dot _ d hd36,
+      by rw [digitVal_digitChar _ d hd36]; exact hd, digitChar_isDigit d hd⟩
 
 /-! ## the decimal point -/
 
